@@ -365,6 +365,7 @@ class Run:
         self.live = True
         self.finalising = False
         self.flip = False
+        self.kind_problem = None
 
     def toggle(self):
         self.flip = not self.flip
@@ -576,8 +577,9 @@ def decorate(lg, cfgs, run, f, kind):
     k0 = fn_kind(f)
     for i, c in enumerate(cfgs):
         f = catcher_of(lg, c, run)(f)
-        if kind != "agen" and fn_kind(f) != k0:
-            raise KindError("decorator %d of %d: a %s function became a %s function" % (i + 1, len(cfgs), k0, fn_kind(f)))
+        if kind != "agen" and fn_kind(f) != k0 and run.kind_problem is None:
+            # recorded, not fatal: the behaviour of the stack is judged first (that is where it shows)
+            run.kind_problem = "decorator %d of %d: a %s function became a %s function" % (i + 1, len(cfgs), k0, fn_kind(f))
         # (the wrapper of an async generator function is a plain function returning a wrapper OBJECT; what a
         # stack of them owes is judged by behaviour: every decorator guards the iteration)
     return f
@@ -867,7 +869,7 @@ def execute(sc, wrapped):
                 lg.remove()
             except BaseException:  # noqa
                 pass
-    return results, acts, run.trace, canary, tlens
+    return results, acts, run.trace, canary, tlens, run.kind_problem
 
 
 # ----------------------------------------------------------------------------- the property, executable
@@ -968,9 +970,15 @@ def finding_key(kind, op, acts, rw, ru, step_events, spec_handled):
 def judge(sc, W, U):
     """direct oracle; returns list of (what, key)"""
     kind = sc["kind"]
-    rw, aw, tw, canary, tlens = W
+    rw, aw, tw, canary, tlens = W[:5]
     ru, au = U[0], U[1]
     problems = []
+    if len(W) > 5 and W[5]:
+        problems = judge(sc, W[:5], U)
+        if not problems:
+            problems = [("%s - the next decorator of a stack (and every `inspect`-based framework) then treats it as a "
+                         "different kind of callable: its iteration / awaiting is no longer protected" % W[5], None)]
+        return problems
     strip = len(sc["cfgs"]) > 1
 
     def toks(evs):
@@ -1207,6 +1215,10 @@ def spec_threads(sc):
 def thread_judge(ctx, sc):
     """real run + direct oracle; returns (clean, full schedule, results, trace)"""
     results, trace, full, problem = execute_threads(sc)
+    if problem:
+        # a hand-over between threads that takes long on a loaded machine is not a verdict: once more, patiently
+        ctx.stat("threads:retried_after_timeout")
+        results, trace, full, problem = execute_threads(sc, timeout=60.0)
     replay = {"stream": "threads", "scenario": sc}
     if problem:
         ctx.violation("threads: " + problem, replay)
@@ -1258,7 +1270,7 @@ def thread_compare(ctx, sc, clean, results, trace, out):
 
 
 def thread_stream(ctx, rng, drv, model_ok):
-    n = ctx.n(250, 6000) * (4 if getattr(ctx, "search_boost", False) else 1)
+    n = ctx.n(120, 2500) * (2 if getattr(ctx, "search_boost", False) else 1)
     scs = [W_THREADS] + [gen_thread_scenario(rng) for _ in range(n)]
     done = []
     for sc in scs:
@@ -1271,16 +1283,9 @@ def thread_stream(ctx, rng, drv, model_ok):
             ctx.stat("threads:one_decorator_shared")
         if len(ctx.violations) >= 40:
             break
-    if model_ok:
-        # the model's schedule is the one the real run actually took: one driver call for the whole batch
-        todo = [d for d in done if d[3] is not None]
-        try:
-            outs = drv.run([thread_line(d[0], d[2]) for d in todo])
-        except core.DriverError as e:
-            ctx.broke("driver:" + DRIVER, str(e))
-            return
-        for (sc, clean, full, results, trace), out in zip(todo, outs):
-            thread_compare(ctx, sc, clean, results, trace, out)
+    # the model's schedule is the one the real run actually took; the caller sends all lines in one driver call
+    todo = [d for d in done if d[3] is not None]
+    return [(thread_line(d[0], d[2]), (lambda out, d=d: thread_compare(ctx, d[0], d[1], d[3], d[4], out))) for d in todo]
 
 
 # the shared-flag refutation of Props/C16 (`shared_flag_loses_record_witness`) as a real schedule: thread 0 is held
@@ -1290,6 +1295,468 @@ W_THREADS = {"threads": [{"cfg": {"exc": ["Exception"], "excl": None, "reraise":
                          {"cfg": {"exc": ["Exception"], "excl": None, "reraise": False, "level": ["ERROR", 40], "default": 7,
                                   "onerror": "k"}, "exc": [7, 102]}],
              "schedule": [0, 1, 1, 0, 0, 1], "shared": True, "sink": "normal"}
+
+
+# ----------------------------------------------------------------------------- round 5: work deferred from inside `_log`
+DEFER_MODES = ["task", "call_soon", "to_thread", "executor", "thread", "enqueue", "ctxrun", "task_group"]
+
+
+def gen_deferred_scenario(rng):
+    """the record a catch() produces is delivered to a sink that DEFERS work - a coroutine sink (loguru makes a
+    task of it inside `_log`), `loop.call_soon`, `asyncio.to_thread`, an executor, a thread started by the
+    sink, an `enqueue=True` handler (worker thread), a context copied inside the sink and run later - and the
+    deferred work itself calls catch()-protected code.  Whatever the deferred work captured of the state at
+    that moment (context variables, thread), its own catch() must behave as anywhere else."""
+    def simple_cfg():
+        c = gen_cfg(rng)
+        c.pop("level_when", None)
+        if isinstance(c["level"][0], str) and c["level"][0] in [n for n, _ in CUSTOM_LEVELS]:
+            c["level"] = list(rng.choice(LEVELS[:4]))
+        c.pop("msgbad", None)
+        return c
+    trig = simple_cfg()
+    if rng.chance(80):
+        trig["exc"], trig["excl"] = ["Exception"], None       # mostly: the trigger IS handled (a record is produced)
+    calls = []
+    for i in range(rng.range(1, 2)):
+        out = ["r", rng.below(10)] if rng.chance(15) else ["e", rng.choice([5, 6, 7, 8, 10, 11]), 700 + i]
+        calls.append({"form": rng.choice(["f", "f", "w"]), "cfg": simple_cfg(), "out": out})
+    return {"mode": rng.choice(DEFER_MODES), "trigger": {"form": rng.choice(["fn", "with", "coro"]), "cfg": trig,
+                                                          "exc": [rng.choice([5, 6, 7, 8, 10, 11]), 100]},
+            "calls": calls}
+
+
+def ev_exc(ev):
+    """the exception an event is about"""
+    return (ev[2], ev[3]) if ev[0] == "L" else ((ev[1], ev[2]) if ev[0] == "O" else None)
+
+
+def execute_deferred(sc, loop, timeout=10.0):
+    """returns (trigger result, trace of the trigger, [(result, trace) per deferred call] or None if the work never ran)"""
+    import asyncio
+    import contextvars
+    import threading
+    from loguru._logger import Core, Logger
+    lg = Logger(core=Core(), exception=None, depth=0, record=False, lazy=False, colors=False, raw=False,
+                capture=True, patchers=[], extra={})
+    run = Run({"kind": "fn", "env": {"probes": [], "logbits": "0" * NC, "logexc": [11, 400], "sink": "normal"}})
+    lock = threading.Lock()
+    mode = sc["mode"]
+    e1 = run.obj(*sc["trigger"]["exc"])
+
+    def collect(msg):
+        rec = msg.record
+        ex = rec["exception"]
+        c = run.canon(ex.value) if ex is not None else (998, 0)
+        with lock:
+            run.trace.append(("L", rec["level"].no, c[0], c[1], 0))
+    lg.add(collect, level=0, format="{message}", catch=False, backtrace=False, diagnose=False, colorize=False)
+
+    nested = []
+    for k in sc["calls"]:
+        def raw(out=k["out"]):
+            if out[0] == "e":
+                raise run.obj(out[1], out[2])
+            return pyval(out[1])
+        if k["form"] == "f":
+            nested.append(catcher_of(lg, k["cfg"], run)(raw))
+        else:
+            def _nested_with(raw=raw, catcher=catcher_of(lg, k["cfg"], run)):
+                with catcher:
+                    return raw()
+                return None
+            nested.append(_nested_with)
+    work_out = []
+    work_done = threading.Event()
+
+    def work():
+        for call in nested:
+            n0 = len(run.trace)
+            r = _call_depth1(run, call)
+            with lock:
+                work_out.append((r, run.trace[n0:]))
+        work_done.set()
+
+    seen_trigger = []
+
+    def is_trigger(record):
+        if record["exception"] is not None and record["exception"].value is e1:
+            seen_trigger.append(1)
+            return True
+        return False
+
+    later = []          # things to do once the trigger has returned
+    if mode == "task":
+        async def notifier(msg):
+            work()
+        lg.add(notifier, level=0, filter=is_trigger, catch=False, format="{message}")
+    elif mode == "task_group":
+        async def notifier2(msg):
+            await asyncio.sleep(0)
+            await asyncio.gather(asyncio.to_thread(lambda: None))
+            work()
+        lg.add(notifier2, level=0, filter=is_trigger, catch=False, format="{message}")
+    elif mode == "enqueue":
+        lg.add(lambda msg: work(), level=0, filter=is_trigger, catch=False, enqueue=True, format="{message}")
+    else:
+        def deferring(msg):
+            if mode == "call_soon":
+                asyncio.get_running_loop().call_soon(work)
+            elif mode == "to_thread":
+                later.append(asyncio.ensure_future(asyncio.to_thread(work)))
+            elif mode == "executor":
+                later.append(asyncio.get_running_loop().run_in_executor(None, work))
+            elif mode == "thread":
+                th = threading.Thread(target=work, daemon=True)
+                th.start()
+            else:
+                later.append(contextvars.copy_context())
+        lg.add(deferring, level=0, filter=is_trigger, catch=False, format="{message}")
+
+    def raiser():
+        raise e1
+    tc = catcher_of(lg, sc["trigger"]["cfg"], run)
+    form = sc["trigger"]["form"]
+
+    async def main():
+        if form == "fn":
+            res = _call_depth1(run, tc(raiser))
+        elif form == "with":
+            def _with_block():
+                with tc:
+                    raiser()
+                return None
+            res = _call_depth1(run, _with_block)
+        else:
+            async def body():
+                await asyncio.sleep(0)
+                raiser()
+            try:
+                res = ("r", canval(await tc(body)()))
+            except BaseException as e:  # noqa
+                res = ("e",) + run.canon(e)
+        n_trig = len(run.trace)
+        # now let the deferred work run
+        if mode == "ctxrun":
+            for c in later:
+                c.run(work)
+        for f in later:
+            if asyncio.isfuture(f):
+                await asyncio.wait_for(f, timeout)
+        await asyncio.wait_for(lg.complete(), timeout)
+        for _ in range(3):
+            await asyncio.sleep(0)
+        return res, n_trig
+    try:
+        res, n_trig = loop.run_until_complete(asyncio.wait_for(main(), 3 * timeout))
+        if mode in ("thread", "enqueue", "executor", "to_thread"):
+            work_done.wait(timeout if seen_trigger else 0.0)
+    finally:
+        try:
+            lg.remove()
+        except BaseException:  # noqa
+            pass
+    # the trigger's own events: those carrying its exception (the deferred work may interleave in thread modes)
+    with lock:
+        trig_trace = [ev for ev in run.trace if ev_exc(ev) == tuple(sc["trigger"]["exc"])]
+    return res, trig_trace, (list(work_out) if work_done.is_set() else None)
+
+
+def judge_deferred(sc, got):
+    env = {"probes": [], "logbits": "0" * NC, "logexc": [11, 400], "sink": "normal"}
+    res, trig_trace, work_out = got
+    problems = []
+    tcfg = sc["trigger"]["cfg"]
+    st, exc, events = spec_catch(env, tcfg, tuple(sc["trigger"]["exc"]), 0)
+    exp = ("r", (tcfg["default"] if sc["trigger"]["form"] != "with" else 0)) if st == "suppressed" else ("e",) + tuple(exc)
+
+    def tk(evs):
+        return [ev_token(e, True) if e[0] in ("L", "O", "P") else repr(e) for e in evs]
+    if res != exp or tk(trig_trace) != tk(events):
+        problems.append("the trigger (%s under catch) raised %s: expected result %s with events %s, observed %s with events %s"
+                        % (sc["trigger"]["form"], "%d.%d" % tuple(sc["trigger"]["exc"]), res_token(exp), tk(events),
+                           res_token(res), tk(trig_trace)))
+        return problems
+    produced = any(ev[0] == "L" for ev in events)
+    if not produced:
+        return problems          # no record, nothing was deferred
+    if work_out is None:
+        problems.append("the work deferred by the sink (%s) never completed" % sc["mode"])
+        return problems
+    for i, k in enumerate(sc["calls"]):
+        if i >= len(work_out):
+            problems.append("deferred call %d did not run" % i)
+            break
+        r, evs = work_out[i]
+        if k["out"][0] == "r":
+            exp_r, exp_e = ("r", k["out"][1]), []
+        else:
+            st2, exc2, exp_e = spec_catch(env, k["cfg"], tuple(k["out"][1:]), 0)
+            exp_r = ("r", k["cfg"]["default"] if k["form"] == "f" else 0) if st2 == "suppressed" else ("e",) + tuple(exc2)
+        evs = [e for e in evs if ev_exc(e) == tuple(k["out"][1:])]
+        if r != exp_r or tk(evs) != tk(exp_e):
+            problems.append("work deferred from inside `_log` (%s; the record of the trigger was being delivered) later called "
+                            "catch()-protected code (%s) raising %s: expected result %s with events %s, observed %s with "
+                            "events %s" % (sc["mode"], "decorated function" if k["form"] == "f" else "with block",
+                                           act_token(k["out"]), res_token(exp_r), tk(exp_e), res_token(r), tk(evs)))
+            break
+    return problems
+
+
+def execute_deferred_patiently(ctx, sc, loop):
+    got = execute_deferred(sc, loop)
+    if got[2] is None and any(ev[0] == "L" for ev in got[1]):
+        ctx.stat("deferred:retried_after_timeout")      # loaded machine? once more with a long deadline
+        got = execute_deferred(sc, loop, timeout=60.0)
+    return got
+
+
+def deferred_stream(ctx, rng):
+    import asyncio
+    n = ctx.n(120, 1500) * (2 if getattr(ctx, "search_boost", False) else 1)
+    loop = asyncio.new_event_loop()
+    try:
+        scs = [dict(W_DEFERRED, mode=m) for m in DEFER_MODES] + [gen_deferred_scenario(rng) for _ in range(n)]
+        for sc in scs:
+            got = execute_deferred_patiently(ctx, sc, loop)
+            ctx.case(("deferred", repr(sc)), nontrivial=got[2] is not None)
+            ctx.traces_validated += 1
+            ctx.stat("deferred:" + sc["mode"])
+            for what in judge_deferred(sc, got):
+                ctx.violation("deferred: " + what, {"stream": "deferred", "scenario": sc})
+            if len(ctx.violations) >= 40:
+                break
+    finally:
+        try:
+            loop.run_until_complete(loop.shutdown_default_executor())
+        except BaseException:  # noqa
+            pass
+        loop.close()
+
+
+W_DEFERRED = {"mode": "task",
+              "trigger": {"form": "with", "cfg": {"exc": ["c8"], "excl": None, "reraise": False, "level": ["ERROR", 40], "default": 0,
+                                                   "onerror": "n"}, "exc": [8, 100]},
+              "calls": [{"form": "f", "cfg": {"exc": ["c7"], "excl": None, "reraise": False, "level": ["WARNING", 30], "default": 9,
+                                             "onerror": "k"}, "out": ["e", 7, 700]}]}
+
+
+
+# ----------------------------------------------------------------------------- round 5: the logger's own options
+def gen_options_scenario(rng):
+    """catch() called on a DERIVED logger: `opt(depth=…, colors=…, raw=…, lazy=…, capture=…, exception=…,
+    record=…)`, `bind(…)`, `patch(…)` in any order; the record of the caught exception must carry the caught
+    exception (whatever `exception=` the logger had), name the frame `depth` levels above the usual one, be
+    formatted with `record`, and inherit everything else"""
+    steps = []
+    for _ in range(rng.range(0, 4)):
+        m = rng.below(3)
+        if m == 0:
+            steps.append(["opt", {"depth": rng.below(3), "colors": rng.chance(40), "raw": rng.chance(30), "lazy": rng.chance(30),
+                                  "capture": rng.chance(70), "exception": rng.choice([None, True, False]),
+                                  "record": rng.chance(30)}])
+        elif m == 1:
+            steps.append(["bind", {"k%d" % rng.below(3): rng.below(10)}])
+        else:
+            steps.append(["patch", rng.below(3)])
+    c = gen_cfg(rng)
+    c.pop("level_when", None)
+    if c["level"][0] in [n for n, _ in CUSTOM_LEVELS]:
+        c["level"] = list(rng.choice(LEVELS[:4]))
+    c["exc"], c["excl"] = ["Exception"], None
+    return {"site": rng.choice(["fn", "fn", "with", "gen"]), "steps": steps, "cfg": c, "exc": [rng.choice([5, 6, 7, 8, 10, 11]), 100],
+            "markup": rng.chance(50)}
+
+
+def options_state(steps):
+    """the options the derived logger holds (opt() replaces the seven flags, keeps patchers and extra; bind and
+    patch keep the flags)"""
+    st = {"depth": 0, "colors": False, "raw": False, "lazy": False, "capture": True, "extra": {}, "patchers": []}
+    for kind, arg in steps:
+        if kind == "opt":
+            for k in ("depth", "colors", "raw", "lazy", "capture"):
+                st[k] = arg[k]
+        elif kind == "bind":
+            st["extra"] = dict(st["extra"], **arg)
+        else:
+            st["patchers"] = st["patchers"] + [arg]
+    return st
+
+
+def execute_options(sc):
+    from loguru._logger import Core, Logger
+    lg = Logger(core=Core(), exception=None, depth=0, record=False, lazy=False, colors=False, raw=False,
+                capture=True, patchers=[], extra={})
+    run = Run({"kind": "fn", "env": {"probes": [], "logbits": "0" * NC, "logexc": [11, 400], "sink": "normal"}})
+    e1 = run.obj(*sc["exc"])
+    seen = []
+
+    def sink(msg):
+        rec = msg.record
+        seen.append({"text": str(msg), "message": rec["message"], "function": rec["function"], "level": rec["level"].no,
+                     "exc_is": rec["exception"] is not None and rec["exception"].value is e1,
+                     "extra": dict(rec["extra"])})
+    lg.add(sink, level=0, format="{message}|{extra}", catch=False, backtrace=False, diagnose=False, colorize=False)
+    calls = []
+
+    def patcher(i):
+        def p(record):
+            calls.append(i)
+            record["extra"]["p%d" % i] = record["extra"].get("p%d" % i, 0) + 1
+        return p
+    for kind, arg in sc["steps"]:
+        if kind == "opt":
+            lg = lg.opt(**arg)
+        elif kind == "bind":
+            lg = lg.bind(**arg)
+        else:
+            lg = lg.patch(patcher(arg))
+    c = dict(sc["cfg"])
+    kw_msg = ("<red>R</red>" if sc["markup"] else "") + "{record[level].no}M"
+    onerr = []
+    kw = {"exception": Exception, "level": c["level"][0], "reraise": c["reraise"], "default": pyval(c["default"]),
+          "message": kw_msg, "onerror": (lambda e: onerr.append(e)) if c["onerror"] != "n" else None}
+    catcher = lg.catch(**kw)
+    site = sc["site"]
+
+    def raiser():
+        raise e1
+    if site == "fn":
+        target = catcher(raiser)
+    elif site == "gen":
+        def genbody():
+            yield 1
+            raise e1
+        g = catcher(genbody)()
+        next(g)
+
+        def target():
+            try:
+                return next(g)
+            except StopIteration as stop:
+                return stop.value
+    else:
+        target = None
+
+    def _lvl2():
+        if site == "with":
+            with catcher:
+                raiser()
+            return None
+        return target()
+
+    def _lvl1():
+        return _lvl2()
+
+    def _lvl0():
+        return _lvl1()
+    try:
+        res = ("r", canval(_lvl0()))
+    except BaseException as e:  # noqa
+        res = ("e",) + run.canon(e)
+    finally:
+        try:
+            lg.remove()
+        except BaseException:  # noqa
+            pass
+    return res, seen, calls, len(onerr)
+
+
+USER_FRAMES = ["_lvl2", "_lvl1", "_lvl0", "options_case", "options_stream"]
+# counted from `_log`: `_log`, `__exit__`, [the wrapper,] the user frames
+FRAME_CHAIN = {"fn": ["_log", "__exit__", "catch_wrapper"] + USER_FRAMES,
+               "gen": ["_log", "__exit__", "catch_wrapper", "target"] + USER_FRAMES,
+               "with": ["_log", "__exit__"] + USER_FRAMES}
+
+
+def judge_options(sc, got):
+    res, seen, calls, n_onerr = got
+    st = options_state(sc["steps"])
+    c = sc["cfg"]
+    problems = []
+    exp_res = ("e",) + tuple(sc["exc"]) if c["reraise"] else ("r", 0 if sc["site"] == "with" else c["default"])
+    if res != exp_res:
+        problems.append("result %s, expected %s" % (res_token(res), res_token(exp_res)))
+    if len(seen) != 1:
+        problems.append("%d records, expected exactly one" % len(seen))
+        return problems
+    r = seen[0]
+    if not r["exc_is"] or r["level"] != c["level"][1]:
+        problems.append("the record does not carry the caught exception at the configured level (level %d, carries it: %s)"
+                        % (r["level"], r["exc_is"]))
+    user = ["target"] + USER_FRAMES if sc["site"] == "gen" else USER_FRAMES
+    if r["function"] != user[st["depth"]]:
+        problems.append("the record names frame %r; the logger's depth option is %d, so it should name %r (%d level(s) "
+                        "above the frame that called the decorated function / contains the block)"
+                        % (r["function"], st["depth"], user[st["depth"]], st["depth"]))
+    exp_msg = ("R" if sc["markup"] and st["colors"] else ("<red>R</red>" if sc["markup"] else "")) + "%dM" % c["level"][1]
+    if r["message"] != exp_msg:
+        problems.append("message %r, expected %r (template formatted with `record`, markup %s)"
+                        % (r["message"], exp_msg, "interpreted: colors=True" if st["colors"] else "kept"))
+    exp_extra = dict(st["extra"])
+    for i in st["patchers"]:
+        exp_extra["p%d" % i] = exp_extra.get("p%d" % i, 0) + 1
+    if r["extra"] != exp_extra or sorted(calls) != sorted(st["patchers"]):
+        problems.append("extra %r after patcher calls %r; the logger was bound to %r with patchers %r (each must run once)"
+                        % (r["extra"], calls, st["extra"], st["patchers"]))
+    if st["raw"] and r["text"] != r["message"]:
+        problems.append("raw=True but the sink received %r" % r["text"])
+    if not st["raw"] and not r["text"].startswith(r["message"] + "|"):
+        problems.append("the sink received %r, expected the formatted line" % r["text"])
+    if n_onerr != (0 if c["onerror"] == "n" else 1):
+        problems.append("%d onerror call(s)" % n_onerr)
+    return problems
+
+
+def options_case(ctx, sc):
+    got = execute_options(sc)
+    return got, judge_options(sc, got)
+
+
+def options_stream(ctx, rng, drv, model_ok):
+    n = ctx.n(160, 3000) * (2 if getattr(ctx, "search_boost", False) else 1)
+    scs = [gen_options_scenario(rng) for _ in range(n)]
+    done = []
+    for sc in scs:
+        got, problems = options_case(ctx, sc)
+        done.append((sc, got, problems))
+        ctx.case(("options", repr(sc)), nontrivial=bool(sc["steps"]))
+        ctx.traces_validated += 1
+        ctx.stat("options:" + sc["site"])
+        for what in problems[:1]:
+            ctx.violation("options (%s under catch() of a logger derived by %s): %s" % (sc["site"], sc["steps"], what),
+                          {"stream": "options", "scenario": sc})
+        if len(ctx.violations) >= 40:
+            break
+    out = []
+    for sc, got, problems in done:
+        st = options_state(sc["steps"])
+        line = "opt %s %d %s" % ("with" if sc["site"] == "with" else "fn", st["depth"],
+                                 "".join("1" if st[k] else "0" for k in ("lazy", "colors", "raw", "capture")))
+        out.append((line, (lambda ans, sc=sc, got=got, problems=problems: options_compare(ctx, sc, got, problems, ans))))
+    return out
+
+
+def options_compare(ctx, sc, got, problems, out):
+    p = out.split(" ")
+    if len(p) != 4 or p[0] != "F" or p[2] != "O":
+        raise core.DriverError("unexpected model answer: %r" % out)
+    if problems or len(got[1]) != 1:
+        return
+    chain = FRAME_CHAIN[sc["site"]]
+    name = chain[int(p[1])] if p[1].isdigit() and int(p[1]) < len(chain) else "?"
+    st = options_state(sc["steps"])
+    vals = p[3].split(",")
+    want = ["t", "n%d" % (st["depth"] + (0 if sc["site"] == "with" else 1)), "b1"] + \
+           ["b1" if st[k] else "b0" for k in ("lazy", "colors", "raw", "capture")] + ["o7", "o8"]
+    if name != got[1][0]["function"] or vals != want:
+        ctx.stat("disagreements")
+        ctx.broke("correspondence Catch.Options (options handed to _log vs model)",
+                  "scenario=%r impl frame %r, model frame %r (index %s); model options %r, derived from the logger %r"
+                  % (sc, got[1][0]["function"], name, p[1], vals, want))
+        ctx.violation("options: the record names frame %r, the model's `get_frame(depth + adj + 2)` gives %r"
+                      % (got[1][0]["function"], name), {"stream": "options", "scenario": sc}, kind="correspondence")
+
 
 # ----------------------------------------------------------------------------- witnesses / corpus
 def cfg_default(**kw):
@@ -1453,7 +1920,7 @@ def _run(ctx):
             file_expect.append((entry["scenario"], entry["expected"][0], entry["expected"][1]))
     for tag, sc in fixed:
         scenarios.append((tag, sc))
-    n = ctx.n(12000, 200000) * boost
+    n = ctx.n(10000, 130000) * boost
     for _ in range(n):
         scenarios.append(("random", gen_scenario(rng)))
     if not ctx.quick:
@@ -1484,8 +1951,26 @@ def _run(ctx):
             if len(ctx.violations) >= 40 or ctx.stats.get("protocol_model_disagreements", 0) > 20:
                 break
 
+    import time
+    t_main = time.time()
     # ---- round 5: the guard flag across threads (real threads under forced schedules)
-    thread_stream(ctx, rng.fork("threads"), drv, model_ok)
+    pending_lines = thread_stream(ctx, rng.fork("threads"), drv, model_ok)
+    t_thr = time.time()
+
+    # ---- round 5: work deferred from inside `_log` (tasks, threads, copied contexts) that itself uses catch()
+    deferred_stream(ctx, rng.fork("deferred"))
+    t_def = time.time()
+
+    # ---- round 5: catch() of a derived logger (opt / bind / patch): what the record is made with
+    pending_lines += options_stream(ctx, rng.fork("options"), drv, model_ok)
+    if model_ok and pending_lines:
+        try:
+            for (line, compare), out in zip(pending_lines, drv.run([pl[0] for pl in pending_lines])):
+                compare(out)
+        except core.DriverError as e:
+            ctx.broke("driver:" + DRIVER, str(e))
+    ctx.note("stream wall times: threads %.1f s, deferred %.1f s, options %.1f s"
+             % (t_thr - t_main, t_def - t_thr, time.time() - t_def))
 
     # ---- corpus expectations (exact)
     for sc, exp_res, exp_tr in list(CORPUS) + file_expect:
@@ -1539,13 +2024,16 @@ def real_repr_case(ctx):
 
 def exhaustive_small():
     """every 2-state automaton over a small action alphabet (4 x 4 per state) x every driver of length <= 4
-    over 5 operations (length >= 3: starting with next()), x 3 configurations (1 for length 4), for the
-    generator, coroutine and async-generator wrappers (thorough tier; 3 x 256 x 290 = 222 720 cases)"""
+    over 5 operations (length >= 3: starting with next()), x 4 configurations incl. a stack of two (1 for
+    length 4), for the generator, coroutine and async-generator wrappers (thorough tier; 3 x 256 x 345 cases)"""
     import itertools
     send_acts = [["y", 1, 1], ["Y", 0], ["r", 3], ["e", 8, 101]]
     thr_acts = [["x"], ["y", 4, 0], ["r", 5], ["e", 8, 102]]
     ops_alpha = [["s", 0], ["s", 2], ["t", 7, 200], ["t", 0, 201], ["c"]]
-    cfgs = [cfg_default(), cfg_default(reraise=True, onerror="n"), cfg_default(exc=["BaseException"], default=0)]
+    cfgs = [[cfg_default()], [cfg_default(reraise=True, onerror="n")], [cfg_default(exc=["BaseException"], default=0)],
+            # round 5: a stack of two (innermost first) - the inner one handles only KeyError (the injected class),
+            # the outer one everything: what the inner lets through must be logged once by the outer
+            [cfg_default(exc=["c7"], default=2), cfg_default(level=["WARNING", 30], default=3)]]
     out = []
     for kind in ("gen", "coro", "agen"):
         for s0, t0, s1, t1 in itertools.product(send_acts, thr_acts, send_acts, thr_acts):
@@ -1563,7 +2051,7 @@ def exhaustive_small():
                     for ci, c in enumerate(cfgs):
                         if ci and L > 3:
                             continue
-                        out.append({"kind": kind, "cfgs": [c], "env": ENV0, "table": table, "ops": ops2})
+                        out.append({"kind": kind, "cfgs": c, "env": ENV0, "table": table, "ops": ops2})
     return out
 
 
@@ -1575,6 +2063,27 @@ def replay(ctx, rep):
         bad = bool(ctx.violations)
         print("REPRODUCED" if bad else "not reproduced")
         return 1 if bad else 0
+    if r.get("stream") == "options":
+        got, problems = options_case(ctx, r["scenario"])
+        print("result:      ", res_token(got[0]), got[1], "patchers", got[2], "onerror calls", got[3])
+        for what in problems:
+            print("oracle:      ", what)
+        print("REPRODUCED" if problems else "not reproduced")
+        return 1 if problems else 0
+    if r.get("stream") == "deferred":
+        import asyncio
+        loop = asyncio.new_event_loop()
+        try:
+            got = execute_deferred(r["scenario"], loop)
+        finally:
+            loop.close()
+        print("trigger:     ", res_token(got[0]), [ev_token(e, True) for e in got[1]])
+        print("deferred:    ", [(res_token(x[0]), [ev_token(e, True) for e in x[1] if e[0] in "LO"]) for x in (got[2] or [])])
+        problems = judge_deferred(r["scenario"], got)
+        for what in problems:
+            print("oracle:      ", what)
+        print("REPRODUCED" if problems else "not reproduced")
+        return 1 if problems else 0
     if r.get("stream") == "threads":
         clean, full, results, trace = thread_judge(ctx, r["scenario"])
         print("schedule:    ", full)
